@@ -13,7 +13,7 @@ for p in "${patches[@]}"; do
   git -C "$W" apply "$PWD/$p" || { echo "$name: PATCH-DOES-NOT-APPLY"; git -C /repo worktree remove --force "$W"; rc=1; continue; }
   for q in ${PROPS:-C01 C04 C08 C18 C19 C20}; do
     out=$(VERIF_REPO="$W" VERIF_EVIDENCE_DIR="$W/.evidence" ./check "$q" quick 2>&1); code=$?
-    if [ $code = 0 ]; then echo "$name $q: clean"; else echo "$name $q: FALSE-ALARM-OR-ERROR exit=$code: $(echo "$out" | grep -e '^violation detail' -e '^check:' -e simcheck: | head -3 | cut -c1-400)"; rc=1; fi
+    if [ $code = 0 ]; then echo "$name $q: clean"; else echo "$name $q: FALSE-ALARM-OR-ERROR exit=$code: $(echo "$out" | grep -a -e '^violation detail' -e '^check:' -e simcheck: | head -3 | cut -c1-400)"; rc=1; fi
   done
   git -C /repo worktree remove --force "$W"
 done
